@@ -10,10 +10,15 @@ import StorageModel.C04.Map
                   boss  : string   AddFkIndexCascadeDelete -> A.minions  (self reference, cascades)
                   dep   : *string  AddFkConstraint(nullable?, CascadeNone | CascadeDelete) -> B
     B ("owners")  no fields
-    C             plain child store of A (its data lives in `<A entity bucket>/ext1`): tag : *string,
-                  no constraints of its own.  Every operation through C runs A's constraints through the
-                  parent `IndexingContext`; `DeleteById` on an entity with child data runs A's
-                  `ProcessBeforeDelete` constraints twice (`passA`).
+    C, C2         two plain sibling child stores of A (data in `<A entity bucket>/ext1`, `/ext2`), each with
+                  tag : *string, mentor : *string (fk -> B), guard : *string (fk -> B).  Per schema variant a
+                  child store DECLARES a nullable fk index on its mentor (-> B.mentees1 / B.mentees2) and / or a
+                  nullable fk constraint (CascadeNone) on its guard — or neither (then the field is plain data).
+                  Every operation through a child store runs A's constraints through the parent
+                  `IndexingContext` and then the child store's own; `DeleteById` fans out over the registered
+                  child stores in registration order (`Schema.c2First`): for each one holding data for the
+                  entity a full round of A's `ProcessBeforeDelete` constraints plus that child store's, then
+                  A's own round (`roundsOf`).
 
   State = the two entity tables (child data is part of the A entry: `EntA.ext`, it goes with the entity
   bucket) + the two back-reference maps (key present ⇔ the set bucket
@@ -34,14 +39,38 @@ def evalVal (v : FV) : Bytes := v.getD []
     (an empty payload gives a pointer to "") -/
 def evalString (v : FV) : Option Bytes := v
 
+/-- the data a child store holds for an entity (bucket `ext1` / `ext2` under the entity bucket) -/
+structure Ext where
+  tag : FV
+  /-- mentor: fk value -> B (indexed when the child store declares the fk index) -/
+  m : FV := none
+  /-- guard: fk value -> B (checked when the child store declares the fk constraint) -/
+  g : FV := none
+deriving DecidableEq, Repr
+
+inductive Child | c1 | c2
+deriving DecidableEq, Repr
+
 structure EntA where
   owner : FV
   boss : FV
   dep : FV
-  /-- child-store data: `none` = no bucket `ext1` under the entity bucket, `some t` = the bucket exists
-      and holds `tag = t` -/
-  ext : Option FV := none
+  /-- child-store data: `none` = no bucket `ext1` under the entity bucket -/
+  ext1 : Option Ext := none
+  ext2 : Option Ext := none
 deriving DecidableEq, Repr
+
+/-- the fields store A itself persists -/
+def EntA.plain (e : EntA) : EntA := { owner := e.owner, boss := e.boss, dep := e.dep }
+
+def EntA.extOf (e : EntA) : Child → Option Ext
+  | .c1 => e.ext1
+  | .c2 => e.ext2
+
+def EntA.setExt (e : EntA) (c : Child) (x : Option Ext) : EntA :=
+  match c with
+  | .c1 => { e with ext1 := x }
+  | .c2 => { e with ext2 := x }
 
 structure St where
   as : Map EntA := []
@@ -50,6 +79,19 @@ structure St where
   things : Map (List Bytes) := []
   /-- A id ↦ keys of the bucket `<a>/minions` -/
   minions : Map (List Bytes) := []
+  /-- B id ↦ keys of the bucket `<b>/mentees1` (back-references of C.mentor) -/
+  mentees1 : Map (List Bytes) := []
+  /-- B id ↦ keys of the bucket `<b>/mentees2` (back-references of C2.mentor) -/
+  mentees2 : Map (List Bytes) := []
+
+def St.mentees (s : St) : Child → Map (List Bytes)
+  | .c1 => s.mentees1
+  | .c2 => s.mentees2
+
+def St.setMentees (s : St) (c : Child) (m : Map (List Bytes)) : St :=
+  match c with
+  | .c1 => { s with mentees1 := m }
+  | .c2 => { s with mentees2 := m }
 
 inductive Err
   | notFound | refExists | nullNotAllowed | other
@@ -68,7 +110,26 @@ structure Schema where
   depNullable : Bool
   /-- the dep constraint is registered before the two fk indexes -/
   depFirst : Bool
+  /-- child store C / C2 declares `AddNullableFkIndex(mentor, B.mentees1 / mentees2)` -/
+  idx1 : Bool := false
+  idx2 : Bool := false
+  /-- child store C / C2 declares `AddFkConstraint(guard, nullable, CascadeNone)` -/
+  fk1 : Bool := false
+  fk2 : Bool := false
+  /-- `RegisterChildStoreStrategy` was called for C2 before C -/
+  c2First : Bool := false
 deriving DecidableEq, Repr
+
+def Schema.idx (σ : Schema) : Child → Bool
+  | .c1 => σ.idx1
+  | .c2 => σ.idx2
+
+def Schema.fk (σ : Schema) : Child → Bool
+  | .c1 => σ.fk1
+  | .c2 => σ.fk2
+
+/-- the child stores in `childStoreStrategies` order -/
+def childOrder (σ : Schema) : List Child := if σ.c2First then [.c2, .c1] else [.c1, .c2]
 
 /-- constraints of store A / store B, in `Indexer.constraints` order -/
 inductive CA | ownerIdx | bossIdx | bossCascade | depFk
@@ -106,6 +167,34 @@ def minionsDel (s : St) (t id : Bytes) : Res :=
   if s.as.contains t then .ok { s with minions := s.minions.insert t (setDel id ((s.minions.lookup t).getD [])) }
   else .error .notFound
 
+/-! ### one fk index on its back-reference map alone (used literally for the child-declared index; the
+    handlers of A's two indexes below are proved equal to these in Proofs.lean) -/
+
+/-- old entry removal inside `fkIndex.ProcessAfterUpdate` (`getIndexBucket`: not-found if the target is gone) -/
+def idxDel (tgt : Bytes → Bool) (v id : Bytes) (m : Map (List Bytes)) : Except Err (Map (List Bytes)) :=
+  if v ≠ [] then
+    (if tgt v then .ok (m.insert v (setDel id ((m.lookup v).getD []))) else .error .notFound)
+  else .ok m
+
+def idxAdd (nullable : Bool) (tgt : Bytes → Bool) (new id : Bytes) (m1 : Map (List Bytes)) :
+    Except Err (Map (List Bytes)) :=
+  if new ≠ [] then
+    (if tgt new then .ok (m1.insert new (setIns id ((m1.lookup new).getD []))) else .error .notFound)
+  else if nullable then .ok m1 else .error .nullNotAllowed
+
+/-- `fkIndex.ProcessAfterUpdate` on the back-reference map alone -/
+def idxWrite (nullable : Bool) (tgt : Bytes → Bool) (ic : Bool) (old new id : Bytes) (m : Map (List Bytes)) :
+    Except Err (Map (List Bytes)) :=
+  if ¬ ic ∧ old = new then .ok m else
+    match idxDel tgt old id m with
+    | .ok m1 => idxAdd nullable tgt new id m1
+    | .error e => .error e
+
+/-- `fkIndex.ProcessBeforeDelete` on the back-reference map alone (since 001d2d2: a target that is gone is
+    skipped, so this step never fails) -/
+def idxDelB (tgt : Bytes → Bool) (v id : Bytes) (m : Map (List Bytes)) : Map (List Bytes) :=
+  if v ≠ [] then (if tgt v then m.insert v (setDel id ((m.lookup v).getD [])) else m) else m
+
 /-- `AtomStates` captured by `ProcessBeforeUpdate` -/
 structure Olds where
   owner : Bytes := []
@@ -142,7 +231,7 @@ def processAfterUpdateA (σ : Schema) (isCreate : Bool) (old : Olds) (id : Bytes
 def createA (σ : Schema) (s : St) (id : Bytes) (e : EntA) : Res :=
   if id = [] then .error .other                         -- blank id
   else if s.as.contains id then .error .other           -- already exists
-  else processAfterUpdateA σ true {} id { s with as := s.as.insert id e }
+  else processAfterUpdateA σ true {} id { s with as := s.as.insert id e.plain }   -- A writes no child data
 
 /-- `BaseStore.Create` on B (its constraints do nothing on create) -/
 def createB (s : St) (id : Bytes) : Res :=
@@ -153,11 +242,46 @@ def createB (s : St) (id : Bytes) : Res :=
 /-- `IndexingContext.ProcessBeforeUpdate`: the fk values of the stored entity -/
 def oldsOf (cur : EntA) : Olds := { owner := evalVal cur.owner, boss := evalVal cur.boss, dep := evalVal cur.dep }
 
+/-! ### the constraints a child store declares -/
+
+/-- `symbol.Eval` of a field of child store `c` (nil without child data) -/
+def childField (s : St) (id : Bytes) (c : Child) (f : Ext → FV) : Bytes :=
+  match s.as.lookup id with
+  | some e => (match e.extOf c with | some x => evalVal (f x) | none => [])
+  | none => []
+
+/-- `fkIndex.ProcessAfterUpdate` of the nullable mentor index child store `c` declares (if it does) -/
+def childIdxStep (σ : Schema) (c : Child) (ic : Bool) (oldM : Bytes) (id : Bytes) (s : St) : Res :=
+  if σ.idx c then
+    match idxWrite true s.bs.contains ic oldM (childField s id c (·.m)) id (s.mentees c) with
+    | .ok m => .ok (s.setMentees c m)
+    | .error e => .error e
+  else .ok s
+
+/-- `fkConstraint.ProcessAfterUpdate` of the nullable guard constraint child store `c` declares (if it does) -/
+def childFkStep (σ : Schema) (c : Child) (ic : Bool) (oldG : Bytes) (id : Bytes) (s : St) : Res :=
+  if σ.fk c then
+    let new := childField s id c (·.g)
+    if ¬ ic ∧ oldG = new then .ok s
+    else if new ≠ [] then (if s.bs.contains new then .ok s else .error .notFound)
+    else .ok s                                                             -- nullable
+  else .ok s
+
+/-- `ProcessAfterUpdate` of child store `c`'s constraints, in declaration order: the nullable fk index on
+    `mentor`, then the nullable fk constraint on `guard` — each only if the schema declares it -/
+def childAfterUpdate (σ : Schema) (c : Child) (ic : Bool) (oldM oldG : Bytes) (id : Bytes) (s : St) : Res :=
+  childIdxStep σ c ic oldM id s >>= childFkStep σ c ic oldG id
+
+/-- `ProcessBeforeDelete` of child store `c`'s constraints (only the fk index does anything; never fails) -/
+def childBeforeDelete (σ : Schema) (c : Child) (id : Bytes) (s : St) : St :=
+  if σ.idx c then s.setMentees c (idxDelB s.bs.contains (childField s id c (·.m)) id (s.mentees c)) else s
+
 /-- `BaseStore.Update` on A with a field checker (`m*` = field is in the checker).  When the entity has
-    child data the registered `ChildStoreUpdateHandler` hands the update to the child store (new parent
-    values, stored tag): `C.Update` runs `ProcessBeforeUpdate` / `ProcessAfterUpdate` of A's constraints
-    through the parent indexing context with `IsCreate = false` and persists the same fields under the
-    same checker — the same effect; the child data stays as it is. -/
+    child data the first registered `ChildStoreUpdateHandler` whose store holds data for it hands the update
+    to that child store (new parent values, stored child fields): `Update` there runs `ProcessBeforeUpdate` /
+    `ProcessAfterUpdate` of A's constraints through the parent indexing context with `IsCreate = false`,
+    persists the same parent fields under the same checker, and the child store's own constraints see
+    unchanged values — the same effect whichever store carries it out; the child data stays as it is. -/
 def updateA (σ : Schema) (s : St) (id : Bytes) (e : EntA) (mOwner mBoss mDep : Bool) : Res :=
   if id = [] then .error .other
   else match s.as.lookup id with
@@ -166,38 +290,48 @@ def updateA (σ : Schema) (s : St) (id : Bytes) (e : EntA) (mOwner mBoss mDep : 
       let e' : EntA := { owner := if mOwner then e.owner else cur.owner,
                          boss := if mBoss then e.boss else cur.boss,
                          dep := if mDep then e.dep else cur.dep,
-                         ext := cur.ext }
+                         ext1 := cur.ext1, ext2 := cur.ext2 }
       processAfterUpdateA σ false (oldsOf cur) id { s with as := s.as.insert id e' }
 
-/-- `BaseStore.Create` on the child store C: only C's own data is looked at for "already exists"; the
-    parent entity may exist already — then (since /repo 8269ce9) `Parent.ProcessBeforeUpdate` captures
-    its stored fk values, every parent field is overwritten (no field checker on create) and
-    `ProcessAfterUpdate` runs with `IsCreate = true` and those old values: the "unchanged" shortcut is off,
-    the old back-reference is removed and the new one written even when both name the same target. -/
-def createC (σ : Schema) (s : St) (id : Bytes) (e : EntA) (tag : FV) : Res :=
+/-- `BaseStore.Create` on child store `c`: only `c`'s own data is looked at for "already exists"; the
+    parent entity may exist already (possibly with data of the sibling child store, which stays) — then
+    (since /repo 8269ce9) `Parent.ProcessBeforeUpdate` captures its stored fk values, every parent field is
+    overwritten (no field checker on create) and `ProcessAfterUpdate` runs with `IsCreate = true` and those
+    old values: the "unchanged" shortcut is off, the old back-reference is removed and the new one written
+    even when both name the same target.  Then `c`'s own constraints, with no old values. -/
+def createC (σ : Schema) (c : Child) (s : St) (id : Bytes) (e : EntA) (x : Ext) : Res :=
   if id = [] then .error .other
   else
-    let e' : EntA := { owner := e.owner, boss := e.boss, dep := e.dep, ext := some tag }
     match s.as.lookup id with
-    | none => processAfterUpdateA σ true {} id { s with as := s.as.insert id e' }
+    | none =>
+      let e' : EntA := ({ owner := e.owner, boss := e.boss, dep := e.dep } : EntA).setExt c (some x)
+      processAfterUpdateA σ true {} id { s with as := s.as.insert id e' } >>= childAfterUpdate σ c true [] [] id
     | some cur =>
-      if cur.ext.isSome then .error .other                                   -- child data exists already
-      else processAfterUpdateA σ true (oldsOf cur) id { s with as := s.as.insert id e' }
+      if (cur.extOf c).isSome then .error .other                             -- child data exists already
+      else
+        let e' : EntA := ({ owner := e.owner, boss := e.boss, dep := e.dep, ext1 := cur.ext1, ext2 := cur.ext2 } : EntA).setExt c (some x)
+        processAfterUpdateA σ true (oldsOf cur) id { s with as := s.as.insert id e' } >>=
+          childAfterUpdate σ c true [] [] id
 
-/-- `BaseStore.Update` on the child store C (`FindById` through C: not found without child data) -/
-def updateC (σ : Schema) (s : St) (id : Bytes) (e : EntA) (tag : FV) (mOwner mBoss mDep mTag : Bool) : Res :=
+/-- `BaseStore.Update` on child store `c` (`FindById` through `c`: not found without child data);
+    `mTag mM mG` = the child fields in the checker -/
+def updateC (σ : Schema) (c : Child) (s : St) (id : Bytes) (e : EntA) (x : Ext)
+    (mOwner mBoss mDep mTag mM mG : Bool) : Res :=
   if id = [] then .error .other
   else match s.as.lookup id with
     | none => .error .notFound
     | some cur =>
-      match cur.ext with
+      match cur.extOf c with
       | none => .error .notFound
-      | some curTag =>
-        let e' : EntA := { owner := if mOwner then e.owner else cur.owner,
-                           boss := if mBoss then e.boss else cur.boss,
-                           dep := if mDep then e.dep else cur.dep,
-                           ext := some (if mTag then tag else curTag) }
-        processAfterUpdateA σ false (oldsOf cur) id { s with as := s.as.insert id e' }
+      | some cx =>
+        let x' : Ext := { tag := if mTag then x.tag else cx.tag, m := if mM then x.m else cx.m,
+                          g := if mG then x.g else cx.g }
+        let e' : EntA := ({ owner := if mOwner then e.owner else cur.owner,
+                            boss := if mBoss then e.boss else cur.boss,
+                            dep := if mDep then e.dep else cur.dep,
+                            ext1 := cur.ext1, ext2 := cur.ext2 } : EntA).setExt c (some x')
+        processAfterUpdateA σ false (oldsOf cur) id { s with as := s.as.insert id e' } >>=
+          childAfterUpdate σ c false (evalVal cx.m) (evalVal cx.g) id
 
 /-! ### referrer lookup: `IterateValidIds(tx, &fkReferrerFilter{symbol, id})` -/
 
@@ -252,20 +386,37 @@ def beforeDeleteA (del : List Bytes → St → Bytes → Res) (prog : List Bytes
 def passA (σ : Schema) (del : List Bytes → St → Bytes → Res) (prog : List Bytes) (id : Bytes) (s : St) : Res :=
   (orderA σ).foldlM (beforeDeleteA del prog id) s
 
-/-- the child store finds the entity (`C.FindById`): its bucket `ext1` exists -/
-def hasExt (s : St) (id : Bytes) : Bool :=
+/-- child store `c` finds the entity (`FindById` through it): its bucket `ext1` / `ext2` exists -/
+def hasExt (s : St) (id : Bytes) (c : Child) : Bool :=
   match s.as.lookup id with
-  | some e => e.ext.isSome
+  | some e => (e.extOf c).isSome
   | none => false
 
-/-- `BaseStore.DeleteById` on A (`C.DeleteById` goes straight here).  For every registered child store
-    whose `FindById` finds the entity, `processDeleteConstraints` of the child store runs first — its
-    indexing context starts with the parent's constraints — and then A's own `processDeleteConstraints`
-    runs the same constraints a SECOND time (`passA` twice for an entity with child data; the first round's
-    cascade may already have deleted the boss — a reference cycle through the entity — which is why, since
-    001d2d2, `fkIndex.ProcessBeforeDelete` skips a target that is gone).  Between the two
-    rounds the entity still exists (`pass_keeps_id`: a round never removes an entity that is in progress),
-    so the second `FindById` always finds it.
+/-- the `processDeleteConstraints` rounds of one `DeleteById`: one per registered child store that holds
+    data for the entity (`some c`), in registration order, then A's own (`none`) -/
+def roundsOf (σ : Schema) (s : St) (id : Bytes) : List (Option Child) :=
+  ((childOrder σ).filter (hasExt s id)).map some ++ [none]
+
+/-- one round: A's constraints (a child store's indexing context starts with its parent's), then the
+    child store's own -/
+def afterRound (σ : Schema) (id : Bytes) (s1 : St) : Option Child → St
+  | some c => childBeforeDelete σ c id s1
+  | none => s1
+
+def roundA (σ : Schema) (del : List Bytes → St → Bytes → Res) (prog : List Bytes) (id : Bytes) (s : St)
+    (r : Option Child) : Res :=
+  match passA σ del prog id s with
+  | .ok s1 => .ok (afterRound σ id s1 r)
+  | .error e => .error e
+
+/-- `BaseStore.DeleteById` on A (`DeleteById` on a child store goes straight here).  For every registered
+    child store whose `FindById` finds the entity, `processDeleteConstraints` of that child store runs — its
+    indexing context starts with the parent's constraints, so A's `ProcessBeforeDelete` constraints run in
+    every round — and then A's own `processDeleteConstraints` (`roundsOf`; an earlier round's cascade may
+    already have deleted the boss — a reference cycle through the entity — which is why, since 001d2d2,
+    `fkIndex.ProcessBeforeDelete` skips a target that is gone).  Between the rounds the entity and its child
+    data still exist (`pass_keeps_id`: a round never removes an entity that is in progress), so which child
+    stores find it can be read off the initial state and A's own `FindById` always finds it.
 
     The Go function recurses through
     `fkDeleteCascadeConstraint.ProcessBeforeDelete` *before* the entity bucket is removed; since
@@ -278,14 +429,11 @@ def deleteA (σ : Schema) : Nat → List Bytes → St → Bytes → Res
   | 0, _, _, _ => .error .diverge
   | n + 1, prog, s, id =>
     if s.as.contains id then                                                    -- FindById
-      match (if hasExt s id then passA σ (deleteA σ n) prog id s else .ok s) with   -- child store's round
-      | .ok s0 =>
-        match passA σ (deleteA σ n) prog id s0 with                             -- A's own processDeleteConstraints
-        | .ok s1 =>
-          if s1.as.contains id then                                             -- bucket.DeleteEntity(id)
-            .ok { s1 with as := s1.as.erase id, minions := s1.minions.erase id }
-          else .error .other
-        | .error e => .error e
+      match (roundsOf σ s id).foldlM (roundA σ (deleteA σ n) prog id) s with    -- the rounds
+      | .ok s1 =>
+        if s1.as.contains id then                                               -- bucket.DeleteEntity(id)
+          .ok { s1 with as := s1.as.erase id, minions := s1.minions.erase id }
+        else .error .other
       | .error e => .error e
     else .error .notFound
 
@@ -301,12 +449,29 @@ def beforeDeleteB (σ : Schema) (delA : St → Bytes → Res) (id : Bytes) (s : 
     if σ.depCascade then cascadeOver delA (·.dep) id [] refs s     -- no A entity is in progress here
     else if refs ≠ [] then .error .refExists else .ok s
 
+/-- the restrict checks the child-declared fks register on B (after A's, in the harness' wiring order:
+    C's index, C's constraint, C2's index, C2's constraint): `fkDeleteConstraint` (back-reference set
+    non-empty) and `fkDeleteCascadeConstraint` with CascadeNone (a row of the child store whose guard is
+    the id) -/
+def guardOf (σ : Schema) (c : Child) (e : EntA) : FV :=
+  if σ.fk c then (match e.extOf c with | some x => x.g | none => none) else none
+
+def mentorOf (σ : Schema) (c : Child) (e : EntA) : FV :=
+  if σ.idx c then (match e.extOf c with | some x => x.m | none => none) else none
+
+def childRestrict (σ : Schema) (s : St) (id : Bytes) : Child → Bool
+  | c => (σ.idx c && decide (((s.mentees c).lookup id).getD [] ≠ [])) ||
+         decide (referrers s (guardOf σ c) id ≠ [])
+
 /-- `BaseStore.DeleteById` on B -/
 def deleteB (σ : Schema) (s : St) (id : Bytes) : Res :=
   if s.bs.contains id then
     match (orderB σ).foldlM (beforeDeleteB σ (deleteA σ (fuelOf s) []) id) s with
     | .ok s1 =>
-      if s1.bs.contains id then .ok { s1 with bs := s1.bs.erase id, things := s1.things.erase id }
+      if childRestrict σ s1 id .c1 || childRestrict σ s1 id .c2 then .error .refExists
+      else if s1.bs.contains id then
+        .ok { s1 with bs := s1.bs.erase id, things := s1.things.erase id,
+                      mentees1 := s1.mentees1.erase id, mentees2 := s1.mentees2.erase id }
       else .error .other
     | .error e => .error e
   else .error .notFound
@@ -319,9 +484,9 @@ inductive Op
   | updateA (id : Bytes) (e : EntA) (mOwner mBoss mDep : Bool)
   | deleteA (id : Bytes)
   | deleteB (id : Bytes)
-  /-- through the child store -/
-  | createC (id : Bytes) (e : EntA) (tag : FV)
-  | updateC (id : Bytes) (e : EntA) (tag : FV) (mOwner mBoss mDep mTag : Bool)
+  /-- through a child store -/
+  | createC (c : Child) (id : Bytes) (e : EntA) (x : Ext)
+  | updateC (c : Child) (id : Bytes) (e : EntA) (x : Ext) (mOwner mBoss mDep mTag mM mG : Bool)
   | deleteC (id : Bytes)
 deriving Repr
 
@@ -331,8 +496,8 @@ def apply (σ : Schema) (s : St) : Op → Res
   | .updateA id e mo mb md => updateA σ s id e mo mb md
   | .deleteA id => deleteA σ (fuelOf s) [] s id
   | .deleteB id => deleteB σ s id
-  | .createC id e tag => createC σ s id e tag
-  | .updateC id e tag mo mb md mt => updateC σ s id e tag mo mb md mt
+  | .createC c id e x => createC σ c s id e x
+  | .updateC c id e x mo mb md mt mm mg => updateC σ c s id e x mo mb md mt mm mg
   | .deleteC id => deleteA σ (fuelOf s) [] s id                 -- `store.parent.DeleteById`
 
 /-- one operation in its own transaction: an error rolls back -/
